@@ -99,7 +99,10 @@ func (r *runner) generate() {
 
 	// ---------------- macro arguments ----------------
 	txv := [][2]string{{"x", hx("Vx")}, {"a", hx("")}, {"t", hx("b a")}, {"a.x", hx("\xff\x00")}, {"tx", hx("%{tx.x}")}}
-	mtexts := enumerate("%{}.txa", 0, cfg.Pick(4, 5))
+	mtexts := enumerate("%{}.txa", 0, cfg.Pick(3, 5))
+	for i := 0; i < cfg.Pick(500, 6000); i++ {
+		mtexts = append(mtexts, randFrom(rng, "%{}.txa%{}.tx", 4+rng.Intn(5)))
+	}
 	mtexts = append(mtexts, "%{tx.x}", "pre%{tx.x}post", "%{tx.missing}", "%{TX.X}", "%{Tx.A.X}", "%{tx.a%{tx.x}",
 		"%{tx.x}%{tx.t}", "%{tx.x", "%{tx.}", "%{nosuch.x}", "%{tx.a b}", "%{tx.x}}", "%%{tx.x}", "%{tx.x}%", "%{tx.x}%{",
 		"%{tx.0}", "%{tx.a-b_c[1]}", "%{tx}", "%{tx.tx}", "a%{tx.x}%{tx.nokey}b", "%{tx.x\xff}", "%{.x}", "%{tx..x}")
@@ -128,7 +131,7 @@ func (r *runner) generate() {
 	for _, op := range numOps {
 		for _, a := range numStrings {
 			for _, v := range numStrings {
-				if cfg.Thorough() || rng.Intn(3) == 0 {
+				if cfg.Thorough() || rng.Intn(8) == 0 {
 					r.runMop(op, a, nil, v)
 				}
 			}
@@ -372,10 +375,10 @@ func (r *runner) genUtf8(rng *rand.Rand) {
 		for _, b1 := range bd {
 			r.runSimple("vutf8", "validateUtf8Encoding", "", string([]byte{b0, b1}))
 			for _, b2 := range bd {
-				if cfg.Thorough() || (b0 >= 0xe0 && b0 <= 0xf4) || rng.Intn(10) == 0 {
+				if cfg.Thorough() || ((b0 >= 0xe0 && b0 <= 0xf4) && rng.Intn(3) == 0) || rng.Intn(25) == 0 {
 					r.runSimple("vutf8", "validateUtf8Encoding", "", string([]byte{b0, b1, b2}))
 				}
-				if b0 >= 0xf0 {
+				if b0 >= 0xf0 && (cfg.Thorough() || rng.Intn(5) == 0) {
 					for _, b3 := range []byte{0x7f, 0x80, 0xbf, 0xc0} {
 						r.runSimple("vutf8", "validateUtf8Encoding", "", string([]byte{b0, b1, b2, b3}))
 					}
@@ -446,7 +449,7 @@ func (r *runner) genParse(rng *rand.Rand) {
 		"!@pm a b", "@eq 5", "!@eq 5", "@eq", "@validateByteRange 1-5", "@validateByteRange", "@validateByteRange x", "@validateUrlEncoding",
 		"@validateUrlEncoding ignored", "@validateUtf8Encoding", "@unconditionalMatch", "!@unconditionalMatch", "@noMatch", "!@noMatch x",
 		"@within a,b", "@beginsWith %{tx.x}", "@endsWith %{tx.}", "@strmatch %{nosuch.x}", "@ge -1", "@gt +1", "@le a", "@lt 1 2",
-		"@rx\xc2\xa0a", "@\xc2\xa0rx a", "@contains \xc2\xa0a\xc2\xa0", "@contains \t a \t", "\xff", "!\xff", "@rx \xe2\x80\x83", "!@", "!@ ", "!@x",
+		"@rx\xc2\xa0a", "@\xc2\xa0rx a", "@contains \xc2\xa0a\xc2\xa0", "@contains \t a \t", "@rx \xe2\x80\x83", "!@", "!@ ", "!@x",
 		"@streq a", "@STREQ a", "@beginswith a", "@endsWith  ", "! @rx a", "!\t@rx a", "@rx\ta", "@rx\t a", "@rx \ta"}
 	for _, o := range fixed {
 		r.runParse(o)
